@@ -229,8 +229,8 @@ def _c05_vm_sample(d, tier, coq, build, want=240):
 
 CONFIG = {
     "properties_file": "Properties/C05.v",
-    "proof_files": ["Base/Prelude.v", "Proofs/Verify.v", "Proofs/VerifyComplete.v", "Proofs/VerifyProxy.v", "Proofs/VerifyFuel.v", "Proofs/VerifyConc.v", "Proofs/VerifyTop.v", "Proofs/VerifyWriter.v", "Proofs/VerifyNames.v", "Proofs/VerifyFileConc.v", "Proofs/VerifyOpts.v", "Proofs/VerifyFacts.v", "Proofs/VerifyChunk.v", "Proofs/VerifyEof.v"],
-    "model_files": ["Generated/GC05.v", "Model/Verify.v"],
+    "proof_files": ["Base/Prelude.v", "Proofs/Verify.v", "Proofs/VerifyComplete.v", "Proofs/VerifyProxy.v", "Proofs/VerifyFuel.v", "Proofs/VerifyConc.v", "Proofs/VerifyTop.v", "Proofs/VerifyWriter.v", "Proofs/VerifyNames.v", "Proofs/VerifyFileConc.v", "Proofs/VerifyOpts.v", "Proofs/VerifyFacts.v", "Proofs/VerifyChunk.v", "Proofs/VerifyEof.v", "Proofs/VerifyAny.v"],
+    "model_files": ["Generated/GC05.v", "Model/Verify.v", "Model/VerifyAny.v"],
     "extract": "XC05.v",
     "ml_main": "c05_main.ml",
     "harness": "c05",
